@@ -25,6 +25,8 @@ open Parsley Parsley.Obj Parsley.Spelling Parsley.DocSpec Driver
                                     which keeps its own entry (two entries share an offset), or into A, at its `endobj`, at the
                                     section, at the header: must be rejected; target 7 = control (see `RetSel`, `genRet`)
       reth <hex> <seed> <revisions> <index>   the same across the revisions of a history (C04; Driver/C04.lean `genReth`)
+      pack <hex> <seed> <variant>   a document whose object stream is TIGHTLY PACKED (members back to back, every separator,
+                                    offset convention, slack before / after /First, tail, header layout; see `genPack`)
       w0   <hex> <seed> <variant>   purpose-built: a cross-reference stream WITHOUT a type field (/W [0 n m], every row is
                                     type 1 by default, /Index leaving out object 0): variant even = the stream is the
                                     file's cross-reference section, odd = hybrid file whose /XRefStm stream lists some
@@ -895,6 +897,132 @@ def judgeGarb (sc : Scene) (hex : String) (lk ll tk : Nat) (impl : String) : Str
     else if hofs == some (toString ll) then "ok"
     else s!"bad wrong-header-offset reported {hofs.getD "-"} want {ll}"
 
+/-! ### TIGHTLY PACKED object streams (`pack`; histories: `packh` in Driver/C04.lean)
+
+    `DocSpec.mkContainer` writes a space after every member and a one-space header.  Here the container is laid out by
+    hand (same dictionary, same meaning): seven members, one of every kind - dictionary, array, string, name, integer,
+    real, boolean - in an order that brings every kind behind every other; between consecutive members
+      sepMode 0  NOTHING wherever the two spellings allow it (`Spelling.endsRegular` / `startsRegular`: the predecessor
+                 ends in a delimiter `>>` `]` `)` `>` or the successor starts with one), else one space
+              1  one space      2  one newline      3  a comment and its end of line      4  a long run (blanks, NUL, form
+              feed, CR LF, a comment)      5  all of these in turn
+    the declared offset of a member is its first byte, or (`ofsAtSep`) the END OF ITS PREDECESSOR (the separator then is
+    leading white space of the member: offset = cursor after the previous object even with a separator);
+      slack 0  one white-space byte between the header and /First, the first member exactly at /First
+            1  NO byte between the last header number and /First when the first member starts with a delimiter
+            2  a long run with a comment before /First      3  white space after /First: the first offset is not 0
+      tail  0  the data ends with the last byte of the last member    1  one space    2  newline, blanks, newline
+      hdr   0  `id ofs id ofs` with single spaces    1  one pair per line    2  leading zeros (`007 00`)    3  long mixed runs
+    optionally FlateDecode'd.  Oracle: DocSpec.resolve - every member is defined with its value. -/
+
+def objKind : Obj → Nat
+  | .dict _ => 0
+  | .arr _ => 1
+  | .str _ => 2
+  | .name _ => 3
+  | .int _ => 4
+  | .real _ _ => 5
+  | .bool _ => 6
+  | _ => 7
+
+/-- a random value of the wanted kind (canonical form, form to spell) -/
+def memberOfKind (r : Rng) (k : Nat) : (Obj × Obj) × Rng :=
+  let fallback : Obj := match k with
+    | 0 => .dict [(bs "K", .int 1)]
+    | 1 => .arr [.int 1, .name (bs "N")]
+    | 2 => .str (bs "s(")
+    | 3 => .name (bs "Nm")
+    | 4 => .int (-17)
+    | 6 => .bool true
+    | _ => .int 3
+  let (found, r) := (List.range 40).foldl (fun (acc : Option Obj × Rng) _ =>
+    match acc.1 with
+    | some _ => acc
+    | none => let (v, r) := rndNonNull 2 acc.2; (if objKind v == k then some v else none, r)) (none, r)
+  let v := found.getD fallback
+  let (sv, r) := shuffleObj v r
+  ((v, sv), r)
+
+def packSep (mode : Nat) : Bytes :=
+  match mode with
+  | 1 => [32]
+  | 2 => [10]
+  | 3 => bs "%c\n"
+  | 4 => [32, 0, 12, 9, 13, 10] ++ bs "% x y\r\n  "
+  | _ => []
+
+structure PackLay where
+  sepMode : Nat
+  ofsAtSep : Bool
+  slack : Nat
+  tail : Nat
+  hdr : Nat
+  flate : Bool
+  step : Nat          -- order of the kinds: member i has kind (i * step) % 7
+
+/-- data, /First and the members' (number, value) of a packed object stream -/
+def packData (r : Rng) (nums : List Nat) (l : PackLay) : Bytes × Nat × List (Nat × Obj) × Rng :=
+  -- spellings
+  let (ms, r) := nums.zipIdx.foldl (fun (acc : List (Nat × Obj × Bytes) × Rng) (n, i) =>
+    let ((v, sv), r) := memberOfKind acc.2 ((i * l.step) % 7)
+    let (ch, r) := rndChoices r 60
+    (acc.1 ++ [(n, v, (spell sv ch).1)], r)) ([], r)
+  -- content: (number, offset) pairs
+  let gap0 : Bytes := if l.slack == 3 then [32, 10, 32] else []
+  let (content, pairs, _) := ms.zipIdx.foldl (fun (acc : Bytes × List (Nat × Nat) × Bytes) (m, i) =>
+    let (content, pairs, prev) := acc
+    let body := m.2.2
+    if i == 0 then (content ++ body, pairs ++ [(m.1, content.length)], body)
+    else
+      let mode := if l.sepMode == 5 then i % 5 else l.sepMode
+      let sep := packSep mode
+      let sep := if sep.isEmpty && endsRegular prev && startsRegular body then [32] else sep
+      let ofs := if l.ofsAtSep then content.length else content.length + sep.length
+      (content ++ sep ++ body, pairs ++ [(m.1, ofs)], body)) (gap0, [], [])
+  let tail : Bytes := match l.tail with | 0 => [] | 1 => [32] | _ => [10, 32, 32, 10]
+  -- header
+  let num (n : Nat) (k : Nat) : Bytes := (if l.hdr == 2 then zeros (1 + k % 2) else []) ++ natDigits n
+  let hdr : Bytes := pairs.zipIdx.flatMap fun (p, i) =>
+    let pre : Bytes := if i == 0 then (if l.hdr == 3 then [10, 32] else []) else
+      match l.hdr with | 1 => [10] | 3 => [32, 13, 10, 9] | _ => [32]
+    let mid : Bytes := if l.hdr == 3 then [32, 32, 10] else [32]
+    pre ++ num p.1 i ++ mid ++ num p.2 (i + 1)
+  let firstBody := (ms.head?.map (·.2.2)).getD []
+  let pad : Bytes := match l.slack with
+    | 1 => if gap0.isEmpty && !startsRegular firstBody then [] else [32]
+    | 2 => [32, 10] ++ bs "% 99 0 (not a pair)\n" ++ [9]
+    | _ => if l.hdr == 1 then [10] else [32]
+  (hdr ++ pad ++ content ++ tail, (hdr ++ pad).length, ms.map fun m => (m.1, m.2.1), r)
+
+/-- the container object and the members' cross-reference data -/
+def packContainer (r : Rng) (num : Nat) (nums : List Nat) (l : PackLay) : DObj × List (Nat × Nat × Nat × Obj) × Rng :=
+  let (data, first, ms, r) := packData r nums l
+  let (shell, r) := rndShell r num 0
+  let payload := if l.flate then FiltersSpec.zlibStored [data] else data
+  let ents : List (Bytes × Obj) :=
+    [(bs "Type", .name (bs "ObjStm")), (bs "N", .int ms.length), (bs "First", .int first)] ++
+    (if l.flate then [(bs "Filter", .name (bs "FlateDecode"))] else [])
+  ({ shell with body := .stm ents payload }, ms.zipIdx.map fun (m, k) => (m.1, num, k, m.2), r)
+
+def packLayOf (variant : Nat) : PackLay :=
+  { sepMode := (variant / 2) % 6, ofsAtSep := (variant / 12) % 2 == 1, slack := (variant / 24) % 4, tail := (variant / 96) % 3,
+    hdr := (variant + variant / 7) % 4, flate := (variant / 3) % 2 == 1, step := 1 + (variant / 7) % 6 }
+
+/-- variants 0 .. 287 cover layout x separator mode x offset convention x slack x tail -/
+def packVariants : Nat := 288
+
+def genPack (seed variant : Nat) : Scene :=
+  let r := Rng.mk' (seed * 7243 + variant * 19 + 4)
+  let kind := 1 + variant % 2
+  let (garbage, r) := rndGarbage r
+  let (bin, r) := r.nat 2
+  let (p1, r) := rndValObj r 1 0
+  let (p2, r) := rndValObj r 2 0
+  let (c, ms, r) := packContainer r 20 [11, 12, 13, 14, 15, 16, 17] (packLayOf variant)
+  let (objs, r) := shuffleL [p1, p2, c] r
+  let (lay, _) := rndLay r kind 30 65535
+  ⟨garbage, bin == 1, [({ objs, members := ms, frees := [], zero := true, root := (1, 0), lay }, .auto)], some [0]⟩
+
 /-! ### identity mismatch by RETARGETING (`ret`; over histories: `reth` in Driver/C04.lean)
 
     The `mism` / `sys` corruptions exchange the offsets of two entries or list an object under another number: every
@@ -1204,6 +1332,7 @@ def judge (case impl : String) : String :=
     | ["w0", hex, seed, variant] => judgeW0 seed.toNat! variant.toNat! hex impl
     | ["enc", hex, seed, variant] => judgeEnc (genEncDoc seed.toNat! variant.toNat!) hex impl
     | ["lenc", hex, seed, variant] => judgeLen (genLenC seed.toNat! variant.toNat!) hex impl
+    | ["pack", hex, seed, variant] => judgeScene (genPack seed.toNat! variant.toNat!) hex impl
     | _ => "skip"
 
 /-! ### corruption of a rendered file -/
@@ -1245,6 +1374,12 @@ def gen (seed n : Nat) (tier : String) (emit : String → IO Unit) : IO Unit := 
       match retUsable (genRet s sel) with
       | some bytes => emit (retLine s sel bytes)
       | none => pure ()
+  -- tightly packed object streams: every separator mode x offset convention x slack x tail x layout
+  for rep in List.range (if tier == "thorough" then 5 else 1) do
+    for v in List.range packVariants do
+      let s := (seed + 19 * rep) * 1031 + v
+      let (bytes, _, _, _) := render (genPack s v)
+      emit s!"pack {hexOfBytes bytes} {s} {v}"
   for k in List.range n do
     let s := seed * 100003 + k
     let v := k % 6
@@ -1290,6 +1425,8 @@ def nontrivial (line : String) : Bool :=
   | "w0" :: _ => true
   | "enc" :: _ => true
   | "lenc" :: _ => true
+  | "pack" :: _ => true
+  | "packh" :: _ => true
   | "lenh" :: _ => true
   | "long" :: _ => true
   | "garb" :: _ => true
